@@ -118,6 +118,18 @@ theorem awaitSync_leaves_awaited (b : Body) (s1 : b.σ) (k : Nat) (f : Flags)
   · cases e <;>
     simp [awaitSyncFlags, startFlag, yieldFlag, ofBody, coroObj, envObj, envAfter, h1, h2, hset]
 
+/-- … and so is a Future the coroutine suspends on *during its clean-up*, in response to the abort
+    (it is yielded into `CoroStart.throw`, which discards it after clearing its flag). -/
+theorem awaitSync_leaves_cleanup_awaited (b : Body) (s1 s2 : b.σ) (k k2 : Nat) (f : Flags)
+    (h1 : b.resume b.init (.send 0) = (s1, .yield (.fut k)))
+    (h2 : b.resume s1 (.throw .syncAbort) = (s2, .yield (.fut k2)))
+    (hf : f k = false) (hf2 : f k2 = false) :
+    awaitSyncFlags (ofBody b) f = f := by
+  have hset : ∀ (g : Flags) (j : Nat), g j = false → (Flags.set (Flags.set g j true) j false) = g := by
+    intro g j hg; funext i; by_cases hi : i = j <;> simp [Flags.set, hi, hg]
+  simp [awaitSyncFlags, startFlag, yieldFlag, ofBody, coroObj, envObj, envAfter, h1, h2, hset f k hf,
+    hset f k2 hf2]
+
 /-- `aiter_sync` over an async iterator none of whose `__anext__` calls suspends produces the
     same items and ends the same way as native `async for`, for any number of `next()` calls. -/
 theorem aiterSync_eq (A : AIter)
